@@ -10,17 +10,18 @@ NOTES = ('Technique family: contract-based deductive verification of the real co
 
 CLAIMS = {
     'C02': dict(
-        text=('For all operand/operator lists of any length, the tree built by the real parse_op/parse_precedence '
-              'equals the unique grouping defined by the published precedence table (levels generated from the '
-              'documentation on every run): higher level binds tighter, equal levels group left to right; operands '
-              '(incl. parenthesised ones) are opaque leaves, so grouping depends on operators only. Proved by Verus '
-              'with loop invariants on the verbatim function bodies; no bound on chain length.'),
+        text=('For all token slices, the real op_expression pipeline: parse_operand_list (proved in unit prec_tokens: alternating '
+              'Expr (Op Expr)* list whose k-th operator is the variant the reference assigns to the operator TOKEN that stood there, for all '
+              '18 operators; progress; termination) feeds parse_precedence / parse_op (proved in unit prec, with loop invariants on the '
+              'verbatim bodies, for operand lists of EVERY length): the tree returned equals the unique grouping defined by the published '
+              'precedence table (levels generated from the documentation on every run): higher level binds tighter, equal levels group left '
+              'to right; operands (incl. parenthesised ones) are opaque leaves, so grouping depends on operators only; the '
+              'panic!("premature abort") in op_expression is proved unreachable.'),
         design_ref='DESIGN.md §5 C02',
-        note=('Trusted: Verus/Z3; the mechanical extraction (rules R0,R1,R3,R4,R10 listed in evidence); '
-              'Expression::pos as a deterministic function; derived Clone is structural; parse_operand_list yields an '
-              'alternating Expr (Op Expr)* list and the token recognisers map each operator token to its variant '
-              '(combinator macros: assumed, checked bounded in the thorough tier).'),
-        technique='Verus contracts + loop invariants on extracted parse_op, precedence_level, operator recognisers',
+        note=('Trusted: Verus/Z3; the mechanical extraction (rules R0,R1,R3,R4,R10 listed in evidence; either!/run!/do_each!/match_token! extracted verbatim); '
+              'non_op_expression as an opaque stub (consumes >= 1 token, nothing assumed about which expression); Expression::pos as a deterministic '
+              'function; derived Clone/PartialEq structural; the link between the two units is by identical contract text (opaque_body in prec).'),
+        technique='Verus contracts + loop invariants on extracted parse_operand_list, operator token recognisers, parse_op, precedence_level, op_expression',
     ),
 }
 
@@ -183,10 +184,24 @@ CLAIMS['C15'] = dict(
     technique='Verus contracts on extracted convert_json_val/convert_toml_val/convert_yaml_val, Builtins::include and the importer registry',
 )
 
+CLAIMS['C12'] = dict(
+    text=('PARTIAL, narrow (the ucg-owned half): for all document tuples of any depth and any strings, the sequence of xml-rs events the real '
+          'XmlConverter::write / write_node hand to the writer is exactly the document the tuple DSL describes (oracle: recursive spec '
+          'functions written from the reference): StartDocument with the given version/encoding/standalone, per element Start{name, '
+          'attributes in field order with NULL omitted, namespace declarations}, children in order, End (also for childless elements), '
+          'bare strings and {text=..} as Characters unchanged; every document the DSL cannot express (not a tuple, no root, root not an '
+          'element, a node that is neither tuple nor string, both name and text, neither name nor text, mistyped ns / version / attribute) '
+          'is an error and nothing of the offending node is emitted; Start/End are balanced. How events become bytes - well-formedness '
+          'checks, escaping, indentation - is xml-rs and is NOT covered.'),
+    design_ref='DESIGN.md §5 C12',
+    note=('Trusted: Verus/Z3; the xml-rs model in prelude/xml_events_model.rs (a successful EventWriter::write appends exactly the event; '
+          'builders attr/ns/default_ns push in call order); BuildError opaque; R13 indexed loops; dyn Write as a stand-in.'),
+    technique='Verus contracts on extracted XmlConverter::write/write_node against a ghost event log',
+)
+
 NOT_APPLICABLE = {
     'C07': 'relational completeness between the whole type checker and the whole evaluator; no per-function contract within reach of Verus/Kani states "accepts what runs" (DESIGN §5 C07)',
     'C09': 'quantifies over file-system trees, working directories and import graphs; mechanisms are a generic &mut-AST walker, std::path and RefCell caches re-entered through recursive VM::run - not expressible as function contracts the installed verifiers can check (DESIGN §5 C09)',
-    'C12': 'well-formedness, escaping and namespaces are produced by the xml-rs dependency; the property is about those bytes and an independent parser (DESIGN §5 C12)',
     'C16': 'hyperproperty over runs of a process (sets/orders of files) through cross-file memoisation; needs the whole compiler specified as a function of the file system (DESIGN §5 C16)',
     'C17': 'diagnostic positions are plumbed through ~120 translator push sites and parser-combinator error contexts; needs end positions the AST does not carry and relates two runs (DESIGN §5 C17)',
     'C19': 'the helpers are UCG programs (std/*.ucg), not Rust; neither verifier reads UCG (DESIGN §5 C19)',
